@@ -90,6 +90,26 @@ let () =
         let last = n - 1 in
         for w = 0 to last - 1 do client s (n + w) (ASuspendPU (nat_of_int w, false)); ignore (run_quiet s) done;
         let tS = n + last and tT = n + last + 1 and tR = n + last + 2 in
+        if kind = 3 then begin
+          (* nobody sleeps in this scenario: undo the preparatory suspends *)
+          let s = mk cfgv (n + 4) in
+          let in_hold () = match s.ls.(tT) with LClient cl -> (match cl.ph with PhHold _ -> true | _ -> false) | _ -> false in
+          client s tT (ASubmit (Some (nat_of_int last)));
+          let k = ref 0 in
+          while not (in_hold ()) && !k < 10000 do stept s tT; incr k done;
+          let reached = in_hold () in
+          client s tS (ASuspendPU (nat_of_int last, false));
+          k := 0;
+          while en s tS && !k < 1000 do stept s tS; incr k done;
+          let early = done_cl s.ls.(tS) in
+          let st_parked = states s in
+          k := 0;
+          while not (done_cl s.ls.(tT)) && !k < 10000 do stept s tT; incr k done;
+          let dar = ref (-1) and sar = ref "" in
+          ignore (run_quiet ~stop:(fun () -> if !dar < 0 && done_cl s.ls.(tS) then (dar := nexec s; sar := states s); false) s);
+          Printf.printf "OUT GATE %s reached=%d returned_while_parked=%d states_while_parked=%s done_at_return=%d states_at_return=%s err=%d\n" id
+            (if reached then 1 else 0) (if early then 1 else 0) st_parked !dar !sar (if last_err s then 1 else 0)
+        end else
         if kind = 1 then begin
           client s tS (ASuspendPU (nat_of_int last, false));
           (* the suspender runs until it waits; the worker runs until it is in the idle branch with running = false *)
